@@ -46,6 +46,8 @@ func main() {
 		post(os.Args[2:])
 	case "full":
 		full(os.Args[2:])
+	case "witness":
+		witness(os.Args[2:])
 	default:
 		fmt.Fprintln(os.Stderr, "unknown mode")
 		os.Exit(2)
